@@ -63,6 +63,13 @@ class C20(Machine):
                     ex = {"post": "list"} if name == "combink" else {}
                     if args and isinstance(args[0], dict) and "obj" in args[0]:
                         ex["lst"] = args[0]["obj"]
+                        if name in ("exactsum", "dynprog") and rng.random() < 0.6:
+                            # the same list object, another target
+                            items0 = meta["lists"][str(args[0]["obj"])]
+                            tot0 = sum(i["t"][1] for i in items0)
+                            args = [args[0], rng.choice([tot0, max(0, tot0 - 1), rng.randint(0, tot0 + 1), args[1] + 1])]
+                            if rng.random() < 0.5:
+                                name = rng.choice(["exactsum", "dynprog"])
                     pb.step(c, k="call", obj=fn[name], name="__call__", args=args, kw={}, tag=name + ":again", role="eager", fname=name, **ex)
                     continue
                 if op == "repeat":
